@@ -76,3 +76,36 @@ package lalr
 //@     invariant neg == -1 ==> forall k in 0..@i :: !accepts(lookaheads[k], input, true)
 //@     invariant pos == -2 ==> exists p in 0..@i :: exists q in p+1..@i :: accepts(lookaheads[p], input, false) && accepts(lookaheads[q], input, false)
 //@     invariant neg == -2 ==> exists p in 0..@i :: exists q in p+1..@i :: accepts(lookaheads[p], input, true) && accepts(lookaheads[q], input, true)
+
+// ---- table compression (C05): the default of a row is its most frequent value ----
+
+// occ(a, n, v): number of occurrences of v among the first n elements of a
+//@ spec func occ(a []int, n int, v int) int decreases n = n <= 0 ? 0 : occ(a, n - 1, v) + (a[n-1] == v ? 1 : 0)
+
+// pickDefault: the result occurs in arr at least as often as every other value, and it is the
+// smallest value with that multiplicity; arr is not modified (reuse is scratch space).
+//@ func pickDefault
+//@   requires len(arr) > 0 && otherarray(arr, reuse)
+//@   requires forall p in 0..len(arr) :: forall q in 0..len(arr) :: arr[p] - arr[q] < len(reuse)
+//@   modifies reuse[0:len(reuse)]
+//@   ensures forall v in -4611686018427387904..4611686018427387904 :: occ(arr, len(arr), v) <= occ(arr, len(arr), result)
+//@   ensures forall k in 0..len(arr) :: arr[k] < result ==> occ(arr, len(arr), arr[k]) < occ(arr, len(arr), result)
+//@   ensures occ(arr, len(arr), result) >= 1
+//@   loop 1:
+//@     invariant 0 <= @i && @i <= len(arr)
+//@     invariant min <= max && (exists k in 0..len(arr) :: arr[k] == min) && (exists k in 0..len(arr) :: arr[k] == max)
+//@     invariant forall k in 0..@i :: min <= arr[k] && arr[k] <= max
+//@   loop 2:
+//@     invariant 0 <= i && i <= n + 1 && n == max - min && n < len(reuse)
+//@     invariant forall k in 0..i :: reuse[k] == 0
+//@   loop 3:
+//@     invariant 0 <= @i && @i <= len(arr) && n == max - min && n < len(reuse)
+//@     invariant forall v in min..max+1 :: reuse[v - min] == occ(arr, @i, v)
+//@     invariant forall k in 0..n+1 :: reuse[k] >= 0
+//@     invariant forall v in -4611686018427387904..4611686018427387904 :: (v < min || v > max) ==> occ(arr, @i, v) == 0
+//@     invariant @i > 0 ==> reuse[arr[0] - min] >= 1
+//@   loop 4:
+//@     invariant 0 <= @i && @i <= n + 1 && n == max - min && n < len(reuse)
+//@     invariant min <= ret && ret <= max && cnt == reuse[ret - min] && (ret - min < @i || (@i == 0 && ret == min))
+//@     invariant forall k in 0..@i :: reuse[k] <= cnt
+//@     invariant forall k in 0..ret - min :: reuse[k] < cnt
